@@ -675,6 +675,9 @@ func execC01Fault(c C01FaultCase) *Failure {
 		wg.Wait()
 	}
 	where := fmt.Sprintf("%s over TCP, calls %v, %d at once", c.Mode, c.Calls, conc)
+	if c.Mode == ModeLegacy {
+		time.Sleep(30 * time.Millisecond) // the legacy server runs handlers after it has acknowledged the POST
+	}
 	w.callMu.Lock()
 	counts := map[string]int{}
 	for k, v := range w.Calls {
@@ -682,7 +685,9 @@ func execC01Fault(c C01FaultCase) *Failure {
 	}
 	w.callMu.Unlock()
 	for _, o := range outs {
-		if n := counts["echo:"+o.nonce]; n != 1 {
+		// a call whose connection died may or may not have reached its handler (the legacy server works after acknowledging);
+		// what the statement rules out is a second run
+		if n := counts["echo:"+o.nonce]; n > 1 || (n != 1 && (o.how == 0 || c.Mode != ModeLegacy)) {
 			return Failf("C01/fault/handler-runs/"+c.Mode.String(), "%s: the handler ran %d times for call %s (connection fault kind %d after the server had processed it; outcome %q / %v)", where, n, o.nonce, o.how, o.text, o.err)
 		}
 		if o.err == nil && o.text != c01Answer(o.nonce, 10) {
